@@ -452,7 +452,7 @@ class IrregularlyBin(Factory, Container):
                 raise JsonFormatException(json, "IrregularlyBin.nanflow:type")
             nanflow = nanflowFactory.fromJsonFragment(json["nanflow"], None)
 
-            if isinstance(json["bins"], list):
+            if isinstance(json["bins"], list) and len(json["bins"]) > 0:
                 bins = []
                 for i, elementPair in enumerate(json["bins"]):
                     if isinstance(elementPair, dict) and hasKeys(elementPair.keys(), ["atleast", "data"]):
